@@ -1,7 +1,7 @@
 #!/bin/bash
 # Soak: quick tier of every claimed property under several VERIF_SEED values. Usage: checks/soak.sh "1 2 3" [props...]
 seeds="$1"; shift
-props="${@:-C01 C04 C05 C06 C14 C15 C18 C19}"
+props="${@:-C01 C03 C04 C05 C06 C07 C14 C15 C16 C18 C19}"
 for s in $seeds; do for p in $props; do
   VERIF_SEED=$s VERIF_WORKERS=${VERIF_WORKERS:-8} /venv/bin/python -m checks.run $p --tier quick | grep -v "^  class" | tail -3
 done; done
